@@ -35,7 +35,22 @@ def finalise_gates(fx, rule="R-ORDER"):
             n += 1
         if not ps:
             obs.append(anchor_ob(rule, "dropping the handle calls %s" % callee))
-        # and nowhere else in libxcp (callers_within in ownership_facts confines the call sites to the Drop)
+            continue
+        # and the converse: with the flag saying "do it", the finalisation does not complete quietly without it --
+        # every path to the end that stays off the edges where the flag says "don't" passes the call or a failure
+        # signal (an early `return Ok(())` from an unrelated branch would skip the steps below it)
+        import r_err
+        from cfg import cfg_of
+        cfg = cfg_of(dv)
+        off_edges = [(u, v) for (u, v, val) in q.gate_edges(dv, CONFIG, field, fx) if val != want]
+        sig = set(r_err.signal_blocks(dv))
+        r = cfg.reach([0], blocked=set(b_ for (b_, _t, _h) in ps) | sig, blocked_edges=off_edges)
+        leak = sorted(b_ for b_ in cfg.returns if b_ in r)
+        obs.append(Ob(rule, mkkey(rule, "handle-drop", callee, 0, "required-when:%s=%s" % (field, want)), not leak,
+                      q.loc_of(ps[0][1]), DROP,
+                      "with config.%s == %s the finalisation ends only after %s or a failure signal: %s" % (
+                          field, want, callee.split("::")[-1], not leak),
+                      None if not leak else dict(returns_reached=["bb%d" % x for x in leak])))
     return obs
 
 
